@@ -164,6 +164,7 @@ def prop_C07(run):
     rules_idx.tab_idx(run)
     rules_idx.match_shape(run)
     rules_idx.match_identity(run)
+    rules_idx.lookahead_both(run)
     rules_idx.candidates_all_matched(run)
     run.rules_run += ["TAB-idx (case normalisation, token classes, whitespace skipping)", "MATCH shape of match_with_rule / match_instr selection"]
 
@@ -229,6 +230,8 @@ def prop_C19(run):
 
 
 def prop_C05(run):
+    import rules_op as _ro
+    _ro.tab_builtin_values(run)
     import rules_op, rules_lim
     rules_op.tab_op(run)
     rules_op.tab_builtins(run)
@@ -252,6 +255,8 @@ def prop_C06(run):
     rules_mpt.pipeline(run)
     rules_mpt.bitvec_rules(run)
     rules_mpt.overlap_rules(run)
+    rules_mpt.bank_range_rules(run)
+    rules_mpt.bank_overlap_rules(run)
     rules_mpt.alignment_rules(run)
     rules_mpt.full_loops(run, "asm::output::fill_banks", what="every bank definition")
     rules_mpt.full_loops(run, "asm::output::check_bank_overlap", what="every pair of banks")
@@ -282,6 +287,7 @@ def prop_C01(run):
     import rules_idx
     rules_idx.match_shape(run)
     rules_idx.match_identity(run)
+    rules_idx.lookahead_both(run)
     rules_mpt.alignment_rules(run)
     rules_mpt.pipeline(run)
     rules_mpt.build_output_rules(run)
